@@ -172,6 +172,8 @@ package inode
 //@   ensures [Fn2-size] result0 > 0 ==> result1 && ip.Size == ite(old(ip.Size) > offset + result0, old(ip.Size), offset + result0) @C02
 //@   ensures [Fn2-nosize] result0 == 0 && result1 ==> ip.Size == old(ip.Size) && dirtyinum == old(dirtyinum) @C02 @C09
 //@   ensures [Fn2-fail] !result1 ==> result0 == 0 @C02 @C09
+//@   ensures [A2-written] result0 > 0 ==> wroteinum[ip.Inum] @C09 @C10 @C02
+//@   ensures [A2-mono] forall j uint64 :: old(wroteinum)[j] ==> wroteinum[j] @C09
 //@   ensures [Fn2-sizeonly] ip.Size == old(ip.Size) || (ip.Size == offset + result0 && offset + result0 > old(ip.Size)) @C02
 //@   ensures [S1-synced] (!dirtyinum[ip.Inum] || old(dirtyinum)[ip.Inum]) && othersClean(ip) @C10
 //@   ensures [I1-inode] inodeInv(ip) @C04
